@@ -637,7 +637,7 @@ def write_ctl(case, wd, tag, **over):
         "dir": d, "mode": case.get("mode", "sync"),
         "schedule": case.get("schedule", []),
         "frames": case.get("frames"),
-        "exit_code": case.get("exit_code", 0),
+        "exit_code": case.get("exit_code", 0), "exit_signal": case.get("exit_signal"),
         "box_rate": case.get("box_rate"), "accel": case.get("accel"),
         "cut": case.get("cut", "line"), "shuffle_ids": case.get("shuffle_ids", False),
         "delay": case.get("delay", 0.003), "die_before_output": case.get("die_before_output", False),
@@ -822,7 +822,8 @@ def run_case(case):
                 obs2, _ = propagate_once(engine, bcase, wd, pp.config[0], pp.config[1], pp.vel_rev,
                                          not pp.vel_rev, "b",
                                          ctl_over={"box_rate": rate, "schedule": [[2 * (j + 3)] * 2],
-                                                   "frames": None, "exit_code": 0, "die_before_output": False})
+                                                   "frames": None, "exit_code": 0, "exit_signal": None,
+                                                   "die_before_output": False})
                 res["back"] = obs2
             return res
         import c12_inproc
@@ -905,6 +906,17 @@ def gmx_epochs(case):
     return hsz, dsz, TRR_HEAD0, fin, eps
 
 
+def return_code(case):
+    """What the engine's Popen.returncode / poll() reports when the program has ended BY ITSELF:
+    the exit status, or -N when the program was killed by signal N (case["exit_signal"]: SIGKILL
+    from the OOM killer or a batch system, SIGSEGV, a SIGTERM the engine did not send).  Behind a
+    launcher script the engine's child is the shell, which exits with status 128 + N."""
+    sig = case.get("exit_signal")
+    if sig:
+        return 128 + int(sig) if case.get("launcher") else -int(sig)
+    return int(case.get("exit_code", 0))
+
+
 def dead_at_start(case):
     return bool(case.get("die_before_output", False)) or not case.get("schedule")
 
@@ -913,7 +925,7 @@ def model_request(case, mi, fx=1, fix2=1, fix3=1, fix14=1):
     eng = case["engine"]
     head = f"{mi['rv']} {mi['left']} {mi['right']} {case['maxlen']}"
     traj, ordt = enc_list(mi["traj"]), enc_list(mi["ord"])
-    code = case.get("exit_code", 0)
+    code = return_code(case)
     dead = int(dead_at_start(case))
     if eng == "lammps":
         return f"lammps {fx} {fix2} {head} {code} {dead} {traj} {ordt} {enc_list(visible_reads(case))}"
